@@ -27,6 +27,7 @@ type HarnessDef struct {
 	MaxPaths int            `json:"max_paths"`
 	MaxPreempt int          `json:"max_preempt"`
 	MapOrder   []string     `json:"map_order_fns"`
+	NativeLimit int         `json:"native_limit"`
 }
 
 type PropDef struct {
@@ -184,6 +185,9 @@ func cmdRun(args []string) int {
 			if *tier == "thorough" {
 				limit = 200
 			}
+			if r.def.NativeLimit > 0 && limit > r.def.NativeLimit {
+				limit = r.def.NativeLimit // harnesses whose native run waits on real timers
+			}
 			if len(ws) > limit {
 				rng.Shuffle(len(ws), func(a, b int) { ws[a], ws[b] = ws[b], ws[a] })
 				ws = ws[:limit]
@@ -209,7 +213,7 @@ func cmdRun(args []string) int {
 			}
 			continue
 		}
-		outs, logs, err := p.NativeReplay(dir, name, vecs, 5*time.Minute)
+		outs, logs, err := p.NativeReplay(dir, name, vecs, 20*time.Minute)
 		if err != nil {
 			fmt.Println("INCONCLUSIVE native replay:", err)
 			_ = logs
